@@ -127,10 +127,45 @@ def run(rep, index):
                                             else "model counter = self.%s mod 10, self.%s >= 0" % (CF, CF)))
         for rule, inst, ok, detail in obs:
             rep.ob(rule, inst, ok, detail)
+    start_values(rep, index, ev)
     rep.floor("public operations", 2)
     rep.floor("operation paths", 2)
     rep.assumptions.append("SequenceStart.value is a pure read (checked for the classes in sequence_start.py by C12)")
     rep.trusted.append("/verif/sa/refs/sequencer_model.py")
+
+
+def start_values(rep, index, ev):
+    """"For arbitrary start values": every concrete start class of sequence_start.py reports, as `.value`, the integer
+    it was constructed with (any sign, any size) -- otherwise the value in force is not the one the caller supplied."""
+    sm = index.module("eolib.packet.sequence_start")
+    n = 0
+    for cname, cdef in sorted(sm.classes.items()):
+        init = next((f for f in cdef.body if isinstance(f, ast.FunctionDef) and f.name == "__init__"), None)
+        if init is None:
+            continue
+        params = [a.arg for a in init.args.args][1:]
+        if not params or params[0] != "value":
+            continue
+
+        def task(cname=cname, params=params):
+            v = B.fresh("v", None, None)
+            args = [v] + [B.fresh(p_, None, None) for p_ in params[1:]]
+            o = ev.instantiate("eolib.packet.sequence_start." + cname, args)
+            got = Frame(ev, sm, {}).getattr(o, "value")
+            return v, got
+        for p, st, val in B.explore(task):
+            B.set_path(p)
+            n += 1
+            inst = "%s(value, ...) path[%s]" % (cname, _fmt(p))
+            if st != "ok":
+                rep.ob("C13.R7 start-reports-the-value-it-was-built-with", inst, False, "raises %s for some integer" % val.exc_name)
+                continue
+            v, got = val
+            ok = isinstance(got, (int, Aff)) and not isinstance(got, bool) and B.is_zero(Aff.of(got) - v)
+            rep.ob("C13.R7 start-reports-the-value-it-was-built-with", inst, ok,
+                   ".value - value = %r" % (B.norm(Aff.of(got) - v) if isinstance(got, (int, Aff)) else got,))
+    rep.count("start constructions", n)
+    rep.floor("start constructions", 3)
 
 
 def _refine(ev, index, m, cls, public, SF, CF, coupling):
